@@ -166,7 +166,7 @@ func genOddNode(r *Rng, name string) *WNode {
 		case 1:
 			n.Taints = append(n.Taints, WTaint{Key: forceKey, Effect: "NoSchedule", Raw: "f"})
 		default:
-			n.Taints = append(n.Taints, WTaint{Key: r.pick("foreign/a", "foreign/b", "node.kubernetes.io/unreachable"), Effect: r.pick("NoSchedule", "NoExecute"), Raw: r.pick("", "1", "v")})
+			n.Taints = append(n.Taints, WTaint{Key: r.pick("foreign/a", "foreign/b", "node.kubernetes.io/unreachable", escKey+"-nodegroup", escKey+"x", "atlassian.com/escalato", forceKey+"d"), Effect: r.pick("NoSchedule", "NoExecute"), Raw: r.pick("", "1", "v")})
 		}
 	}
 	return n
@@ -503,6 +503,7 @@ func awsOpCase(r *Rng, fleet bool, w io.Writer) string {
 	{
 		rec := &Recorder{}
 		rec.reset()
+		rec.AwsCode = r.pick("", "", "Throttling", "RequestLimitExceeded", "ExpiredToken", "ValidationError")
 		sim := newAwsSim(rec)
 		min := int64(r.rng(0, 4))
 		nInst := r.rng(0, 8)
